@@ -364,6 +364,8 @@ class Interp:
                 if n[12:] not in self.envfacts or args:
                     raise TranslateError("environment predicate %s" % n)
                 return self.envfacts[n[12:]]
+            if n in self.envfacts and not args:
+                return self.envfacts[n]          # member function called inside Environment (is_64bit(), is_platform_linux(), ...)
             if n in ("uint32_t", "int", "unsigned", "RegMask", "uint8_t"):
                 return self.ev(args[0])
             if n == "Support::bit_mask":
@@ -497,6 +499,27 @@ def translate(repo):
                     rows.append((arch, plat, cid, None))
                 else:
                     raise TranslateError("init_call_conv returned %r" % (r,))
+    # Environment::stack_alignment() interpreted for the nine (architecture, platform) pairs + the Compiler's override (pattern)
+    env_cpp, compiler_cpp = strip_comments(rd("asmjit/core/environment.cpp")), strip_comments(rd("asmjit/core/compiler.cpp"))
+    sa_body = Parser(tokenize(function_body(env_cpp, r"uint32_t\s+Environment::stack_alignment\s*\("))).block()
+    env_rows = []
+    for arch in ("X86", "X64", "A64"):
+        for plat in (0, 1, 2):
+            env = {"is_64bit": arch != "X86", "is_32bit": arch == "X86", "is_platform_linux": plat == 0, "is_platform_windows": plat == 1,
+                   "is_platform_apple": plat == 2, "is_platform_bsd": False, "is_platform_haiku": False, "is_family_arm": arch == "A64",
+                   "is_family_x86": arch != "A64"}
+            it = Interp({}, {}, env)
+            it.vars, it.cc = {}, None
+            try:
+                it.exec(sa_body)
+                raise TranslateError("Environment::stack_alignment does not return")
+            except Return as r:
+                if not isinstance(r.v, int):
+                    raise TranslateError("Environment::stack_alignment returned %r" % (r.v,))
+                env_rows.append((arch, plat, r.v))
+    if not re.search(r"environment_stack_alignment\s*=\s*_environment\.stack_alignment\(\)\s*;\s*if\s*\(\s*func_node->_func_detail\._call_conv\.natural_stack_alignment\(\)\s*<\s*"
+                     r"environment_stack_alignment\s*\)\s*\{\s*func_node->_func_detail\._call_conv\.set_natural_stack_alignment\(environment_stack_alignment\)", compiler_cpp):
+        raise TranslateError("the Compiler's natural-alignment override (compiler.cpp add_func_node) is not of the expected form")
     # constants
     m = re.search(r"uint64_t\(_call_stack_size\)\s*\+\s*uint64_t\(_local_stack_size\)\s*>\s*(0[xX][0-9a-fA-F]+|\d+)u?\s*\)\s*\{\s*return\s+make_error\(Error::(\w+)\)", func_cpp)
     if not m:
@@ -514,10 +537,10 @@ def translate(repo):
     if not m:
         raise TranslateError("minimum dynamic alignment not found")
     mindyn = int(m.group(1))
-    return coq_text(rows, limit, limit_err, a64_vec_max, a64_err, imm1, imm2, mindyn)
+    return coq_text(rows, limit, limit_err, a64_vec_max, a64_err, imm1, imm2, mindyn, env_rows)
 
 
-def coq_text(rows, limit, limit_err, a64_vec_max, a64_err, imm1, imm2, mindyn):
+def coq_text(rows, limit, limit_err, a64_vec_max, a64_err, imm1, imm2, mindyn, env_rows):
     q = lambda l: "(mkq %d %d %d %d)" % tuple(l)
     lines = []
     for (arch, plat, cid, cc) in rows:
@@ -559,6 +582,22 @@ Theorem src_cc_table_nonvacuous :
   (length src_cc_table >= 100)%%nat /\\ (exists o, In (X64, 1, 33, Some o) src_cc_table) /\\ In (X86, 0, 32, None) src_cc_table.
 Proof. split; [vm_compute; repeat constructor|]. split; [eexists|]; vm_compute; tauto. Qed.
 
+(* Environment::stack_alignment() for every (architecture, platform): the Compiler raises the natural alignment of the convention to it *)
+Definition src_env_stack_alignment : list (arch * Z * Z) := [
+ENVROWS
+].
+Theorem src_env_stack_alignment_agrees : Forall (fun r => let '(a, p, v) := r in env_stack_alignment a p = v) src_env_stack_alignment.
+Proof. repeat (constructor; [reflexivity|]). constructor. Qed.
+(* ... so the Compiler's convention is the source's: natural alignment = max of the convention's and the environment's *)
+Theorem src_compiler_cc_natural : forall a p cc, In a [X86; X64; A64] -> In p [0; 1; 2] ->
+  exists v, In (a, p, v) src_env_stack_alignment /\\ cc_natural (compiler_cc a p cc) = Z.max (cc_natural cc) v.
+Proof.
+  intros a p cc Ha Hp. exists (env_stack_alignment a p). split.
+  - destruct Ha as [<-|[<-|[<-|[]]]]; destruct Hp as [<-|[<-|[<-|[]]]]; vm_compute; tauto.
+  - unfold compiler_cc, cc_with_natural. destruct (Z.ltb_spec (cc_natural cc) (env_stack_alignment a p)); cbn [cc_natural];
+      [rewrite Z.max_r | rewrite Z.max_l]; auto; apply Z.lt_le_incl || idtac; auto.
+Qed.
+
 (* finalize_error: limit and both error codes; a64_realisable: the vector save width; a64_adjust: both immediates; FuncFrame::init *)
 Theorem src_constants_agree :
   frame_size_limit = src_frame_size_limit /\\
@@ -580,7 +619,7 @@ Proof.
   split; [intros f; reflexivity|]. split; [intros sub; destruct sub; vm_compute; repeat split; reflexivity|].
   intros n. reflexivity.
 Qed.
-""" % (limit, limit_err, a64_vec_max, a64_err, imm1, imm2, mindyn, ";\n".join(lines))
+""".replace("ENVROWS", ";\n".join("  (%s, %d, %d)" % r for r in env_rows)) % (limit, limit_err, a64_vec_max, a64_err, imm1, imm2, mindyn, ";\n".join(lines))
 
 
 if __name__ == "__main__":
